@@ -689,6 +689,20 @@ func (w *world) respond(kind string, ch *wamp.Challenge, authid string, u *User)
 			msg, _ := hex.DecodeString(chal)
 			return hex.EncodeToString(sign.Sign(nil, msg, otherPriv())), "none"
 		}
+	case "pubkey":
+		// a response computed from what the challenge itself says: for wampcra, the HMAC of the
+		// challenge under its own "nonce" field as the key
+		switch method {
+		case "wampcra":
+			var c map[string]any
+			json.Unmarshal([]byte(chal), &c)
+			nonce, _ := c["nonce"].(string)
+			return hmacB64([]byte(nonce), chal), "none"
+		case "ticket":
+			return "not-the-ticket:" + chal, "none"
+		case "cryptosign":
+			return chal + chal + chal, "none"
+		}
 	case "prefix":
 		if len(v) > 1 {
 			return v[:len(v)-1], "none"
